@@ -257,6 +257,69 @@ Proof.
 Qed.
 Print Assumptions C10_rejected_config_leaves_no_residue.
 
+(* Index files (cvm::read_index_file, after the repairs): for EVERY file content and every registry without NULL
+   pointers, the file is read without dereferencing a NULL pointer, the registry still has none afterwards, every
+   group that was defined keeps its atoms, and a rejected file leaves the registry exactly as it was.  The last
+   clause fails for the code before the repair (the truncated group stayed and the corrected file was then refused
+   as a redefinition), and the no-NULL clauses fail for seeded change C10_4: see C10_module_state_refuted. *)
+Theorem C10_rejected_index_file_leaves_registry :
+  forall (file : list itok) (r : registry), reg_wf r ->
+    let '(r', rejected, crashed) := read_index_file IvRollback file r in
+    crashed = false /\ reg_wf r' /\
+    (forall n l, reg_lookup n r = Some (Some l) -> reg_lookup n r' = Some (Some l)) /\
+    (rejected = true -> r' = r).
+Proof.
+  exact read_index_file_repaired_spec.
+Qed.
+Print Assumptions C10_rejected_index_file_leaves_registry.
+
+(* All the module-level state that a configuration can touch before it is rejected: index-group registry, named atom
+   groups, per-type bias counters, values of module-level keywords, set of active variables (extra_conf: see
+   C10_rejected_config_leaves_no_residue).  For EVERY configuration, accepted or rejected at any point, from every
+   well-formed state (no NULL group, no crash so far, every named group owned by a defined variable):
+   (1) no NULL pointer is dereferenced and the state stays well-formed; the variables, biases, named groups and index
+       groups that existed are still there unchanged; every variable that was active is still active;
+   (2) the same for any session of configurations and resets;
+   (3) a configuration rejected in parse_global_params changes no object, no named group, no counter and no active
+       variable; what it leaves behind, legitimately, is the groups of those of its index files that were ACCEPTED
+       and the values of those module-level keywords that could be read.
+   What else persists by design, and is predicted exactly by the model rather than forbidden: the objects of a rejected
+   configuration that were accepted before the failing one (C10_rollback_identity), and the per-type counters
+   (bias_count += 1 before init: a rejected block uses up a rank, so the next default name is <type><rank+1>). *)
+Theorem C10_rejected_config_module_state :
+  (forall c s, modst_wf s -> extends s (parse_config6 IvRollback true c s)) /\
+  (forall cfgs s, modst_wf s -> modst_wf (run_session6 IvRollback true cfgs s)) /\
+  (forall c s,
+     let s0 := mkModst (q_cvs s) (q_biases s) (q_reg s) (q_named s) (q_counters s) (q_traj s) (q_restart s) (q_active s) false (q_crash s) in
+     q_err (parse_globals6 IvRollback c s0) = true ->
+     let s' := parse_config6 IvRollback true c s in
+     q_cvs s' = q_cvs s /\ q_biases s' = q_biases s /\ q_named s' = q_named s /\ q_counters s' = q_counters s /\
+     q_active s' = q_active s /\ q_reg s' = q_reg (read_files IvRollback (c6_files c) s0)).
+Proof.
+  exact (conj parse_config6_extends (conj run_session6_wf rejected_in_globals)).
+Qed.
+Print Assumptions C10_rejected_config_module_state.
+
+(* The three variants that are not the repaired code: seeded change C10_4 (NULL pointer under the name of the
+   truncated group: the next index file or `indexGroup second` dereferences it), the code before the repair of
+   read_index_file (the corrected file is refused; accepted after the repair), and the code before the repair of
+   parse_biases_type (a rejected bias switches off the variable it named). *)
+Theorem C10_module_state_refuted :
+  (let r := fst (fst (read_index_file IvNull ndx_broken [])) in
+   reg_wf [] /\ snd (fst (read_index_file IvNull ndx_broken [])) = true /\ reg_lookup "second" r = Some None /\
+   snd (read_index_file IvNull ndx_other r) = true /\ add_index_group "second" r = GUCrash) /\
+  (let r := fst (fst (read_index_file IvKeep ndx_broken [])) in
+   snd (fst (read_index_file IvKeep ndx_broken [])) = true /\ reg_lookup "second" r = Some (Some [5; 6]) /\
+   snd (fst (read_index_file IvKeep ndx_corrected r)) = true /\
+   snd (fst (read_index_file IvRollback ndx_corrected (fst (fst (read_index_file IvRollback ndx_broken []))))) = false) /\
+  (q_err (parse_config6 IvRollback false cfg_bad_bias st_zz0) = true /\
+   q_active (parse_config6 IvRollback false cfg_bad_bias st_zz0) = [] /\
+   q_active (parse_config6 IvRollback true cfg_bad_bias st_zz0) = ["zz0"]).
+Proof.
+  exact (conj index_file_null_refuted (conj index_file_kept_refuted rejected_bias_switches_off_refuted)).
+Qed.
+Print Assumptions C10_module_state_refuted.
+
 (* What the code did BEFORE the repairs (fix: commits in /repo), kept as witnesses; the check reports a violation if
    the tree behaves like this again. *)
 Theorem C10_before_repair_refuted :
